@@ -73,6 +73,13 @@ Definition jump_in_range (len ip : nat) (e : edge) : bool :=
   | (TIp k, _, _) => is_next ip e || ((0 <=? k)%Z && (k <? Z.of_nat len)%Z)
   | _ => true end.
 
+(* the offset of an explicit jump: its target must be an instruction of the function (the interpreter
+   rejects `goto >= len`), also when the offset happens to be 1 *)
+Definition jump_off (d : dinstr) : option Z :=
+  match d with
+  | DIf o | DWhile o | DJmp o | DJmpPop o _ | DStoreSkip _ _ o | DJmpNotNil o => Some o
+  | _ => None end.
+
 Definition check_at (code : list instr) (ds : labelling) (ip : nat) : bool :=
   match lab_at ds ip with
   | None => true
@@ -84,6 +91,9 @@ Definition check_at (code : list instr) (ds : labelling) (ip : nat) : bool :=
       | DErr _ => false
       | DOk d =>
         negb (is_nil s) &&
+        match jump_off d with
+        | Some o => (0 <=? Z.of_nat ip + o)%Z && (Z.of_nat ip + o <? Z.of_nat (length code))%Z
+        | None => true end &&
         forallb (fun n =>
           match abs_step d ip depth n with
           | ABad => false
